@@ -118,6 +118,8 @@ def gen_A(rnd):
 def static_event(pp, tid, A, irules, nrules, crules, mode, rt, via, shape="mods"):
     a = anngen.build(pp, A)
     src = anngen.render(A) if via == "str" else a
+    if via == "str":
+        project.maybe_poison(pp, src, tid, every=2)
 
     def kw():
         return dict(internal_mods={regex_of(r): shaped_mods(pp, r["mods"], shape) for r in irules},
@@ -139,6 +141,8 @@ def static_event(pp, tid, A, irules, nrules, crules, mode, rt, via, shape="mods"
 def variable_event(pp, tid, A, irules, nrules, crules, max_mods, mode, rt, via, shape="mods"):
     a = anngen.build(pp, A)
     src = anngen.render(A) if via == "str" else a
+    if via == "str":
+        project.maybe_poison(pp, src, tid, every=2)
 
     def f():
         res = pp.apply_variable_mods(src, {regex_of(r): shaped_groups(pp, r["groups"], shape) for r in irules}, max_mods,
